@@ -38,6 +38,75 @@ RES = IMPL + "::resources_"
 WHY = "an item handed to a stage must run that stage exactly once, or be discarded exactly once after an exception"
 
 
+def check_slots(R, inst):
+    F = R.F
+    # ---- resource slots ---------------------------------------------------------------------------------
+    n = 0
+    for fn in F.functions(qname=IMPL + "::schedule"):
+        ops = atomic_ops(F, fn)
+        acq = [a for a in ops if a.field == RES and a.op == "fetch_sub"]
+        rel = [a for a in ops if a.field == RES and a.op == "fetch_add"]
+        for a in acq:
+            n += 1
+            # every path from a decrement that does not hand the slot to an item passes the add-back:
+            # handing on = tasks_.schedule(...) reached through the loop and back to the decrement
+            path = fn.path_to_exit_avoiding(a.pos, lambda p, e: any(p == r.pos for r in rel))
+            R.ob(inst, fn, a.node, path is None, "the acquire loop's final decrement is added back on every exit" if path is None else "a loop exit keeps a resource slot that no item owns",
+                 sitekey="acquire-loop", why="each successful decrement is owned by exactly one item; the failed/last one must be undone",
+                 path=fn.describe_path(path) if path else None)
+        for ch in fn.children():
+            rg = [(p, e) for p, e in ch.events() if e.get("k") == "decl" and "ResourceGuard" in e.get("type", "")]
+            if not rg:
+                continue
+            n += 1
+            stage_calls = [(p, e) for p, e in ch.events() if e.get("k") == "call" and e.get("opcall") == "()" and isinstance(strip_move(e.get("obj")), dict)
+                           and strip_move(e.get("obj")).get("name") == "fPipe"]
+            ok = bool(stage_calls) and all(ch.dominates(rg[0][0], p) for p, _ in stage_calls)
+            R.ob(inst, ch, rg[0][1], ok, "ResourceGuard armed before the stage runs" if ok else "stage can run without an armed ResourceGuard", sitekey="rguard", why="if the stage throws before the completion callback the slot must still be released")
+            # completion callback
+            for cb in ch.children():
+                dis = [(p, e) for p, e in cb.events() if e.get("k") == "call" and e.get("name") == "disarm"]
+                if not dis:
+                    continue
+                n += 1
+                ops2 = atomic_ops(F, cb)
+                addback = {a.pos for a in ops2 if a.field == RES and a.op == "fetch_add"}
+                def hands_on(p, e):
+                    if p in addback:
+                        return True
+                    if e.get("k") == "call" and (e.get("callee") or "").endswith("ConcurrentTaskSet::schedule"):
+                        return True
+                    if e.get("k") == "call" and e.get("opcall") == "()" and isinstance(strip_move(e.get("obj")), dict) and strip_move(e.get("obj")).get("ctype") == "dispenso::OnceFunction":
+                        return True
+                    return False
+                path = cb.path_to_exit_avoiding(dis[0][0], hands_on)
+                R.ob(inst, cb, dis[0][1], path is None, "after disarming, the slot is handed to the next item or added back on every path" if path is None else "completion callback can return holding the slot",
+                     sitekey="completion", why="the slot is held for exactly the span of one stage invocation", path=cb.describe_path(path) if path else None)
+    for g in [f for f in F.fns if f.qname.endswith("ResourceGuard::(dtor)")]:
+        adds = [a for a in atomic_ops(F, g) if a.op == "fetch_add" and const_val(a.node["args"][0]) == 1]
+        n += 1
+        ok = len(adds) == 1 and any(isinstance(strip_casts(at), dict) and strip_casts(at).get("fname") == "armed_" and pol for at, pol, _ in g.guard_atoms(adds[0].pos))
+        R.ob(inst, g, g.loc, ok, "releases one slot iff still armed" if ok else "ResourceGuard destructor does not release exactly when armed", sitekey="rguard-dtor", why=WHY)
+    for fn in F.functions(qname=IMPL + "::wait"):
+        ops = atomic_ops(F, fn)
+        for a in ops:
+            if a.field == RES and a.op == "fetch_sub":
+                # a spin of the form while (fetch_sub(1) <= 0) { fetch_add(1); ... }
+                n += 1
+                undo = [r for r in ops if r.field == RES and r.op == "fetch_add"]
+                ok = False
+                for r in undo:
+                    for at, pol, b in fn.guard_atoms(r.pos):
+                        c = comparison_of(at, pol, lambda x: isinstance(x, dict) and x.get("sid") == a.node["sid"])
+                        if c and c[0] in ("<=", "<") and const_val(c[1]) in (0, 1):
+                            # first thing in the loop body: nothing between the failed decrement and the undo can leave the loop
+                            ok = True
+                R.ob(inst, fn, a.node, ok, "a failed slot acquisition in wait() is undone before anything else" if ok else "failed acquisition in wait() is not undone",
+                     sitekey="wait-acquire", why="a failed decrement must not leak a negative count")
+    return n
+
+
+
 def run(R):
     F = R.F
     impl_fns = [f for f in F.fns if f.root_parent().qname.startswith(IMPL + "::")]
@@ -110,69 +179,7 @@ def run(R):
                      sitekey="discard-dec", why="a discarded item never runs its OutstandingGuard; wait() must account for it")
     R.need("C27.outstanding", n, 6, "outstanding_ accounting sites")
 
-    # ---- resource slots ---------------------------------------------------------------------------------
-    n = 0
-    for fn in F.functions(qname=IMPL + "::schedule"):
-        ops = atomic_ops(F, fn)
-        acq = [a for a in ops if a.field == RES and a.op == "fetch_sub"]
-        rel = [a for a in ops if a.field == RES and a.op == "fetch_add"]
-        for a in acq:
-            n += 1
-            # every path from a decrement that does not hand the slot to an item passes the add-back:
-            # handing on = tasks_.schedule(...) reached through the loop and back to the decrement
-            path = fn.path_to_exit_avoiding(a.pos, lambda p, e: any(p == r.pos for r in rel))
-            R.ob("C27.slot", fn, a.node, path is None, "the acquire loop's final decrement is added back on every exit" if path is None else "a loop exit keeps a resource slot that no item owns",
-                 sitekey="acquire-loop", why="each successful decrement is owned by exactly one item; the failed/last one must be undone",
-                 path=fn.describe_path(path) if path else None)
-        for ch in fn.children():
-            rg = [(p, e) for p, e in ch.events() if e.get("k") == "decl" and "ResourceGuard" in e.get("type", "")]
-            if not rg:
-                continue
-            n += 1
-            stage_calls = [(p, e) for p, e in ch.events() if e.get("k") == "call" and e.get("opcall") == "()" and isinstance(strip_move(e.get("obj")), dict)
-                           and strip_move(e.get("obj")).get("name") == "fPipe"]
-            ok = bool(stage_calls) and all(ch.dominates(rg[0][0], p) for p, _ in stage_calls)
-            R.ob("C27.slot", ch, rg[0][1], ok, "ResourceGuard armed before the stage runs" if ok else "stage can run without an armed ResourceGuard", sitekey="rguard", why="if the stage throws before the completion callback the slot must still be released")
-            # completion callback
-            for cb in ch.children():
-                dis = [(p, e) for p, e in cb.events() if e.get("k") == "call" and e.get("name") == "disarm"]
-                if not dis:
-                    continue
-                n += 1
-                ops2 = atomic_ops(F, cb)
-                addback = {a.pos for a in ops2 if a.field == RES and a.op == "fetch_add"}
-                def hands_on(p, e):
-                    if p in addback:
-                        return True
-                    if e.get("k") == "call" and (e.get("callee") or "").endswith("ConcurrentTaskSet::schedule"):
-                        return True
-                    if e.get("k") == "call" and e.get("opcall") == "()" and isinstance(strip_move(e.get("obj")), dict) and strip_move(e.get("obj")).get("ctype") == "dispenso::OnceFunction":
-                        return True
-                    return False
-                path = cb.path_to_exit_avoiding(dis[0][0], hands_on)
-                R.ob("C27.slot", cb, dis[0][1], path is None, "after disarming, the slot is handed to the next item or added back on every path" if path is None else "completion callback can return holding the slot",
-                     sitekey="completion", why="the slot is held for exactly the span of one stage invocation", path=cb.describe_path(path) if path else None)
-    for g in [f for f in F.fns if f.qname.endswith("ResourceGuard::(dtor)")]:
-        adds = [a for a in atomic_ops(F, g) if a.op == "fetch_add" and const_val(a.node["args"][0]) == 1]
-        n += 1
-        ok = len(adds) == 1 and any(isinstance(strip_casts(at), dict) and strip_casts(at).get("fname") == "armed_" and pol for at, pol, _ in g.guard_atoms(adds[0].pos))
-        R.ob("C27.slot", g, g.loc, ok, "releases one slot iff still armed" if ok else "ResourceGuard destructor does not release exactly when armed", sitekey="rguard-dtor", why=WHY)
-    for fn in F.functions(qname=IMPL + "::wait"):
-        ops = atomic_ops(F, fn)
-        for a in ops:
-            if a.field == RES and a.op == "fetch_sub":
-                # a spin of the form while (fetch_sub(1) <= 0) { fetch_add(1); ... }
-                n += 1
-                undo = [r for r in ops if r.field == RES and r.op == "fetch_add"]
-                ok = False
-                for r in undo:
-                    for at, pol, b in fn.guard_atoms(r.pos):
-                        c = comparison_of(at, pol, lambda x: isinstance(x, dict) and x.get("sid") == a.node["sid"])
-                        if c and c[0] in ("<=", "<") and const_val(c[1]) in (0, 1):
-                            # first thing in the loop body: nothing between the failed decrement and the undo can leave the loop
-                            ok = True
-                R.ob("C27.slot", fn, a.node, ok, "a failed slot acquisition in wait() is undone before anything else" if ok else "failed acquisition in wait() is not undone",
-                     sitekey="wait-acquire", why="a failed decrement must not leak a negative count")
+    n = check_slots(R, "C27.slot")
     R.need("C27.slot", n, 6, "resource slot sites")
 
     # ---- stage order in Pipe::execute lambdas ------------------------------------------------------------
